@@ -5,6 +5,7 @@ import StorageModel.C12.Reader
 import StorageModel.C12.Fix
 import StorageModel.C12.LexProofs
 import StorageModel.C12.Typed
+import StorageModel.C12.Classes
 import StorageModel.Generated.Grammar
 /-
   C12 — Boolean connectives group as written: parentheses, precedence, case, spacing.
@@ -242,6 +243,160 @@ example : query L G (fun _ => true) (W.not (.grp (.atom (Atom.sym 0)))).render =
   · exact ((typed_not_negates (fun _ => true) (.atom (Atom.sym 0)) (.atom (.sym 0))
       (by rw [query_ok_iff]; rfl)).2.1)
   · rfl
+
+/-! ## round 8: the typed class of the operand where `not` / `and` / `or` meet it
+
+  After its own typing an atom is a node of some Go struct (`BinaryInt64ExprNode`, `BinaryFloat64ExprNode`,
+  `InStringArrayExprNode`, `BoolSymbolNode`, `StringSymbolNode`, …).  Which structs implement `BoolNode` and
+  what their `GetType()` reports is regenerated from ast/*.go (`Generated.C10.classTable`).  The pinned
+  bodies of `UntypedNotExprNode.TypeTransformBool` / `BooleanLogicExprNode.TypeTransformBool` /
+  `untypedQueryNode.TypeTransformBool` decide by the interface assertion `.(BoolNode)`; `transformC`
+  (StorageModel/C12/Classes.lean) follows them with the class of every atom as a parameter. -/
+
+abbrev CT : ClassTable := Generated.C10.classTable
+
+/-- the model of `ast.Parse` on a skeleton whose atoms are typed as `cls` says -/
+abbrev typedC (cls : α → String) (ts : List (Tok α)) : Res α := queryC .byInterface CT L G cls ts
+
+/-- the structs a typed operand of `not` / `and` / `or` can be: what typing makes of a primary
+    alternative of `boolExpr` (a bool symbol, BOOL, a comparison typed by its operands — bool, datetime,
+    float64 incl. int-against-decimal-literal, int64, string —, `= null`, between, in, the set functions,
+    isEmpty) and of `not` / `and` / `or` themselves (`x not in …` / `x not between …` are `NotExprNode`s) -/
+def boolOperandClasses : List String := [
+  "BoolSymbolNode", "AnyTypeSymbolNode", "BoolConstNode",
+  "BinaryBoolExprNode", "BinaryDatetimeExprNode", "BinaryFloat64ExprNode", "BinaryInt64ExprNode",
+  "BinaryStringExprNode", "IsNilExprNode",
+  "Int64BetweenExprNode", "Float64BetweenExprNode", "DatetimeBetweenExprNode",
+  "InStringArrayExprNode", "InInt64ArrayExprNode", "InFloat64ArrayExprNode", "InDatetimeArrayExprNode",
+  "AllOfSetExprNode", "AnyOfSetExprNode", "IsEmptySetExprNode",
+  "NotExprNode", "AndExprNode", "OrExprNode"]
+
+/-- `BoolNode` structs that never survive typing (each `TypeTransformBool` replaces itself) or are the query itself -/
+def transitoryBoolClasses : List String :=
+  ["BetweenExprNode", "BinaryExprNode", "BooleanLogicExprNode", "InArrayExprNode", "UntypedNotExprNode",
+   "queryNode", "untypedQueryNode"]
+
+/-- (regenerated data) every listed operand struct implements `BoolNode` in the code as it is … -/
+theorem operand_classes_are_bool_nodes : ∀ c ∈ boolOperandClasses, CT.isBoolNode c = true := by decide
+
+/-- … and the list is complete: every struct of package ast that implements `BoolNode` is listed (or transitory). -/
+theorem operand_classes_complete :
+    ∀ row ∈ CT, row.2.1.contains "BoolNode" = true → row.1 ∈ boolOperandClasses ∨ row.1 ∈ transitoryBoolClasses := by
+  decide
+
+theorem connective_classes_are_bool_nodes : ConnectivesAreBoolNodes CT := by
+  unfold ConnectivesAreBoolNodes; decide
+
+/-- (regenerated data) the declared type is a different fact from `BoolNode` membership: the typed float
+    comparison is a `BoolNode` whose `GetType()` reports `NodeTypeFloat64`; every other operand struct
+    reports bool / any. -/
+theorem declared_type_is_not_the_criterion :
+    CT.isBoolNode "BinaryFloat64ExprNode" = true ∧ CT.getType "BinaryFloat64ExprNode" = "NodeTypeFloat64" ∧
+    ∀ c ∈ boolOperandClasses, c ≠ "BinaryFloat64ExprNode" →
+      CT.getType c = "NodeTypeBool" ∨ CT.getType c = "NodeTypeAnyType" := by decide
+
+theorem typedC_eq (cls : α → String) (ts : List (Tok α)) :
+    typedC cls ts = query L G (fun a => CT.isBoolNode (cls a)) ts :=
+  queryC_eq_query CT L G cls connective_classes_are_bool_nodes ts
+
+theorem allBool_true (w : W α) : w.allBool (fun _ => true) = true := by
+  induction w with
+  | atom a => cases a <;> rfl
+  | grp g ih => simpa [W.allBool] using ih
+  | not w ih => simpa [W.allBool] using ih
+  | atomOp a o w ih => cases a <;> simp [W.allBool, ih]
+  | grpOp g o w ihg ih => simp [W.allBool, ihg, ih]
+
+theorem isBool_of_classes (cls : α → String) (hc : ∀ a, cls a ∈ boolOperandClasses) :
+    (fun a => CT.isBoolNode (cls a)) = fun _ => true :=
+  funext fun a => operand_classes_are_bool_nodes _ (hc a)
+
+/-- whatever boolean operand structs the atoms are typed as, the skeleton is accepted and evaluates
+    like the intended reading -/
+theorem typedC_reads (cls : α → String) (hc : ∀ a, cls a ∈ boolOperandClasses) (w : W α) :
+    ∃ t, typedC cls w.render = .ok t ∧ ∀ env, t.eval env = w.readS.eval env := by
+  rw [typedC_eq, isBool_of_classes cls hc]
+  exact (pipeline_reads (fun _ => true) w).2.2 (allBool_true w)
+
+/-- one node, ANY struct of the table (boolean or not): an operand is accepted under `not`, and two
+    operands under `and` / `or`, iff their structs implement `BoolNode` — `GetType()` is not consulted. -/
+theorem operand_accepted_iff_bool_node (cls : α → String) (a b : α) (o : Op) :
+    transformC .byInterface CT cls (.not (.atom (.sym a))) =
+      (if CT.isBoolNode (cls a) then some (.not (.atom (.sym a))) else none) ∧
+    transformC .byInterface CT cls (.bin o (.atom (.sym a)) (.atom (.sym b))) =
+      (if CT.isBoolNode (cls a) && CT.isBoolNode (cls b) then some (T.bin o (.atom (.sym a)) (.atom (.sym b)))
+       else none) :=
+  ⟨not_operand_accepted_iff_bool_node CT cls a, bin_operands_accepted_iff_bool_nodes CT cls o a b⟩
+
+/-- **`not (P)` negates P for every typed class of P**: let the atoms of a skeleton `w` be typed as ANY
+    of the boolean operand structs (`cls` arbitrary — float comparisons, promoted int-vs-float
+    comparisons, datetime / string / bool comparisons, in / between, set functions, isEmpty, a bool
+    symbol …; `w` itself may be an atom, a parenthesised and / or, a `not`).  Then `w` is accepted, `not w`,
+    `not (w)` are accepted and typed as ONE `NotExprNode` around the typed `w`, `not (not (w))` as two, and
+    they evaluate to the negation (resp. the value) of the intended reading of `w` under an arbitrary
+    valuation (one Bool per atom per row, so NULL rows are covered). -/
+theorem typed_not_negates_any_operand_class (cls : α → String) (hc : ∀ a, cls a ∈ boolOperandClasses)
+    (w : W α) :
+    ∃ t, typedC cls w.render = .ok t ∧
+      typedC cls (W.not w).render = .ok (.not t) ∧
+      typedC cls (W.not (.grp w)).render = .ok (.not t) ∧
+      typedC cls (W.not (.grp (.not (.grp w)))).render = .ok (.not (.not t)) ∧
+      (∀ env, t.eval env = w.readS.eval env) ∧
+      (∀ env, (T.not t).eval env = !(w.readS.eval env)) ∧
+      ∀ env, (T.not (.not t)).eval env = w.readS.eval env := by
+  obtain ⟨t, ht, hv⟩ := typedC_reads cls hc w
+  have ht' := ht
+  rw [typedC_eq] at ht'
+  obtain ⟨h1, h2, h3, h4, h5⟩ := typed_not_negates _ w t ht'
+  refine ⟨t, ht, ?_, ?_, ?_, hv, ?_, ?_⟩
+  · rw [typedC_eq]; exact h1
+  · rw [typedC_eq]; exact h2
+  · rw [typedC_eq]; exact h3
+  · intro env; rw [h4, hv]
+  · intro env; rw [h5, hv]
+
+/-- non-vacuity: every atom a typed float comparison -/
+example : ∃ t, typedC (fun (_ : Nat) => "BinaryFloat64ExprNode") (W.not (.grp (.atom (Atom.sym 0)))).render = .ok (.not t) := by
+  obtain ⟨t, _, _, h, _⟩ := typed_not_negates_any_operand_class (fun (_ : Nat) => "BinaryFloat64ExprNode")
+    (fun _ => by decide) (.atom (Atom.sym 0))
+  exact ⟨t, h⟩
+
+/-- **`and` / `or` accept every boolean operand struct**: `(g) op (w)` is typed as `op (typed g) (typed w)`
+    and evaluates to the conjunction / disjunction of the intended readings, `not ((g) op (w))` to one
+    `NotExprNode` around it — for all skeletons `g`, `w` over atoms of arbitrary boolean operand structs. -/
+theorem connectives_accept_every_bool_operand_class (cls : α → String)
+    (hc : ∀ a, cls a ∈ boolOperandClasses) (g w : W α) (o : Op) :
+    ∃ tg tw, typedC cls g.render = .ok tg ∧ typedC cls w.render = .ok tw ∧
+      typedC cls (W.grpOp g o (.grp w)).render = .ok (T.bin o tg tw) ∧
+      typedC cls (W.not (.grp (.grpOp g o (.grp w)))).render = .ok (.not (T.bin o tg tw)) ∧
+      ∀ env, (T.bin o tg tw).eval env = o.apply (g.readS.eval env) (w.readS.eval env) := by
+  obtain ⟨tg, hg, hvg⟩ := typedC_reads cls hc g
+  obtain ⟨tw, hw, hvw⟩ := typedC_reads cls hc w
+  have hg' := hg
+  have hw' := hw
+  rw [typedC_eq] at hg' hw'
+  obtain ⟨h1, h2, h3⟩ := regrouped_operands_both_kept _ g w o tg tw hg' hw'
+  refine ⟨tg, tw, hg, hw, ?_, ?_, ?_⟩
+  · rw [typedC_eq]; exact h1
+  · rw [typedC_eq]; exact h2
+  · intro env; rw [h3, hvg, hvw]
+
+/-- What a check of the DECLARED type in front of the interface assertion does (the other way "operand
+    must be boolean" can be written in `UntypedNotExprNode.TypeTransformBool`; not the code): an operand
+    typed as a float comparison is still accepted on its own and under `and` / `or`, but `not (P)` is a
+    type error — the property's clause "`not (P)` is the negation of P" fails for exactly this struct
+    (`declared_type_is_not_the_criterion`). -/
+theorem declared_type_check_rejects_a_bool_node (cls : α → String) (a b : α)
+    (ha : cls a = "BinaryFloat64ExprNode") (hb : CT.isBoolNode (cls b) = true) :
+    typeQuery .byDeclaredType CT cls (.atom (.sym a)) = some (.atom (.sym a)) ∧
+    typeQuery .byDeclaredType CT cls (.bin .and (.atom (.sym a)) (.atom (.sym b))) =
+      some (.and (.atom (.sym a)) (.atom (.sym b))) ∧
+    typeQuery .byDeclaredType CT cls (.not (.atom (.sym a))) = none ∧
+    typeQuery .byInterface CT cls (.not (.atom (.sym a))) = some (.not (.atom (.sym a))) := by
+  obtain ⟨h1, h2, _⟩ := declared_type_is_not_the_criterion
+  obtain ⟨_, hn, hand, _⟩ := connective_classes_are_bool_nodes
+  refine ⟨?_, ?_, ?_, ?_⟩ <;>
+    simp [typeQuery, transformC, T.cls, T.bin, OperandCheck.accepts, ha, hb, h1, h2, hn, hand]
 
 /-! ## clause 4 (headline): `and` binds tighter than `or`, independent of the order -/
 
